@@ -17,7 +17,9 @@ use crate::api::{ActiveThread, AsyncPushable, Getable, Pushable, RootedValue, Vm
 use crate::compiler::{CompiledFunction, CompiledModule};
 use crate::gc::{Move, Trace};
 use crate::stack::{ExternState, StackFrame};
-use crate::thread::{RootedThread, Status, Thread, ThreadInternal, VmRoot, VmRootInternal};
+use crate::thread::{
+    RootedThread, Status, Thread, ThreadInternal, VmRoot, VmRootInternal, reset_stack_after_error,
+};
 use crate::types::{Instruction, VmIndex};
 use crate::value::ExternFunction;
 use crate::{Error, Result, Variants};
@@ -426,6 +428,7 @@ where
     fn call_first(&self, cx: &mut task::Context<'_> $(, $args: $args)*) -> Poll<Result<$ret_ty>> {
         let vm = self.value.vm();
         let mut context = vm.current_context();
+        let level = context.context().stack.stack().get_frames().len();
         context.push(self.value.get_variant());
         $(
             $args.vm_push(&mut context)?;
@@ -434,7 +437,11 @@ where
             0.vm_push(&mut context).unwrap();
         }
         let args = count!($($args),*) + <$ret_ty as VmType>::EXTRA_ARGS;
-        let context =  ready!(vm.call_function(cx, context.into_owned(), args))?;
+        let context = match ready!(vm.call_function(cx, context.into_owned(), args)) {
+            Ok(context) => context,
+            // The failed call must not leave its frames behind
+            Err(err) => return Poll::Ready(Err(reset_stack_after_error(vm, level, err))),
+        };
         let mut context = context.unwrap();
         let result = {
             let value = context.stack.last().unwrap();
@@ -464,11 +471,16 @@ where
         ) -> Result<$ret_ty>
     {
         use crate::thread::Execute;
+        let level = self.value.vm().context().frame_level();
         match future::lazy(|cx| self.call_first(cx, $($args),*)).await {
             Poll::Ready(result) => result,
             Poll::Pending => {
                 let vm = self.value.vm().root_thread();
-                let value = Execute::new(vm).await?;
+                let value = match Execute::new(vm.clone()).await {
+                    Ok(value) => value,
+                    // The failed call must not leave its frames behind
+                    Err(err) => return Err(reset_stack_after_error(&vm, level, err)),
+                };
                 Self::return_value(value.vm(), value.get_variant())
             }
         }
@@ -538,6 +550,7 @@ where
     {
         let vm = self.value.vm();
         let mut context = vm.current_context();
+        let level = context.context().stack.stack().get_frames().len();
         context.push(self.value.get_variant());
 
         let mut arg_count = R::EXTRA_ARGS;
@@ -548,7 +561,11 @@ where
         for _ in 0..R::EXTRA_ARGS {
             0.vm_push(&mut context).unwrap();
         }
-        let context = ready!(vm.call_function(cx, context.into_owned(), arg_count))?;
+        let context = match ready!(vm.call_function(cx, context.into_owned(), arg_count)) {
+            Ok(context) => context,
+            // The failed call must not leave its frames behind
+            Err(err) => return Poll::Ready(Err(reset_stack_after_error(vm, level, err))),
+        };
         let mut context = context.unwrap();
         let result = {
             let value = context.stack.last().unwrap();
